@@ -85,7 +85,8 @@ def run_point(pt):
             for f in ARTEFACTS[backend] + (["pysnark_eqs", "pysnark_wires", "pysnark_values"] if backend == "qaptools" else []):
                 with open(os.path.join(d, f), "wb") as fh:
                     fh.write(stale)
-        cfg = {"backend": backend, "k": k, "mode": mode, "caught": caught, "autoprove": auto, "prehook": len(pt) > 5 and pt[5], "operation": pt[6] if len(pt) > 6 else None, "nstmts": pt[7] if len(pt) > 7 else None, "shape": pt[8] if len(pt) > 8 else 0}
+        cfg = {"backend": backend, "k": k, "mode": mode, "caught": caught, "autoprove": auto, "prehook": len(pt) > 5 and pt[5], "operation": pt[6] if len(pt) > 6 else None, "nstmts": pt[7] if len(pt) > 7 else None, "shape": pt[8] if len(pt) > 8 else 0,
+               "midfinal": pt[10][0] if len(pt) > 10 and pt[10] else None, "midfinal_then": pt[10][1] if len(pt) > 10 and pt[10] else None}
         r = subprocess.run([common.PY] + (["-O"] if "O" in flags.split("+") else []) + [SCRIPT, json.dumps(cfg)], cwd=d, env=child_env(backend), capture_output=True,
                            text=True, start_new_session=True, timeout=120)
         status = r.returncode
@@ -125,7 +126,21 @@ def judge(res):
         base["operation"] = res["pt"][6]
     if len(res["pt"]) > 9 and res["pt"][9]:
         base["env"] = res["pt"][9]
-    if auto and success:
+    mid = res["pt"][10] if len(res["pt"]) > 10 and res["pt"][10] else None
+    if mid:
+        base["midfinal"] = "%d/%s" % tuple(mid)
+    if mid and auto and success:
+        # an explicit final() in the middle: the step at exit still runs, over the COMPLETE trace
+        want_pub = (mid[0] + 1) if mid[1] == "pub-only" else nstmts
+        want_cons = mid[0] if mid[1] == "pub-only" else nstmts
+        if res["calls"] != 2:
+            out.append((dict(base, klass="successful-run-not-proved-at-exit"), "explicit final() after statement %d, then more tracing: prove() ran %d times (expected: the explicit one and the one at exit)" % (mid[0], res["calls"])))
+        elif res["size"] is None or res["size"][0] in ("defects", "undecodable"):
+            out.append((dict(base, klass="artefacts-undecodable"), "artefacts: %s" % (res["size"],)))
+        elif res["size"][0] != want_pub or res["size"][1] != want_cons:
+            out.append((dict(base, klass="artefacts-incomplete-trace"), "artefacts hold %d public values and %d constraints; the complete trace has %d and %d"
+                        % (res["size"][0], res["size"][1], want_pub, want_cons)))
+    elif auto and success:
         if res["calls"] != 1:
             out.append((dict(base, klass="successful-run-not-proved" if res["calls"] == 0 else "proved-more-than-once"),
                         "exit status 0 with autoprove on, but prove() ran %d times" % res["calls"]))
@@ -162,6 +177,13 @@ def points(thorough, seed):
             pts.append((backend, k, mode, "none", True, False, None, 600))
         for shape in (1, 2, 3, 4):
             pts.append((backend, 600, "fall", "none", True, False, None, 600, shape))
+    # the program calls runtime.final() itself after statement j and goes on (more statements / only a public value)
+    # (not qaptools: a second prove() re-appends the equations to the per-function file - duplicates of true equations,
+    #  which the size-based completeness test of this check would misread)
+    for backend in ("snarkjs", "zkinterface", "zkifbellman"):
+        for j, then in ((1, "more"), (2, "more"), (1, "pub-only"), (0, "pub-only"), (2, "pub-only")):
+            pts.append((backend, 3, "fall", "none", True, False, None, None, 0, "", (j, then)))
+            pts.append((backend, 3, "exit(0)", "none", True, False, None, None, 0, "", (j, then)))
     # interpreter run with -O (assert statements compiled out) / artefact files of a larger earlier run already present
     for backend in ("snarkjs", "zkinterface", "qaptools"):
         for flags in ("O", "stale", "O+stale"):
